@@ -286,6 +286,8 @@ class Lattice(keras.layers.Layer):
         lattice_sizes=lattice_sizes,
         monotonicities=monotonicities,
         unimodalities=unimodalities,
+        output_min=output_min,
+        output_max=output_max,
         interpolation=interpolation)
     super(Lattice, self).__init__(**kwargs)
 
